@@ -86,10 +86,14 @@ type opsRun struct {
 	addrs   []ethcmn.Address
 	slots   map[ethcmn.Address][]ethcmn.Hash
 	touched map[ethcmn.Address]bool
+
+	// known-finding exclusions (decided on the reference state alone)
+	ex       *exclusions
+	startBal map[ethcmn.Address]*big.Int // balance at the start of the current transaction
 }
 
-func newOpsRun(c *OpsCase) *opsRun {
-	r := &opsRun{ad: newAdapter(), ref: newRef(), sparse: c.Sparse, blockN: 1}
+func newOpsRun(c *OpsCase, ex *exclusions) *opsRun {
+	r := &opsRun{ad: newAdapter(), ref: newRef(), sparse: c.Sparse, blockN: 1, ex: ex, startBal: map[ethcmn.Address]*big.Int{}}
 	r.ad.seed(c.Accts)
 	r.ref.seed(c.Accts)
 	r.addrs = opAddrs
@@ -108,6 +112,32 @@ func (r *opsRun) beginTx() {
 	r.ad.sdb.Prepare(r.thash)
 	r.ref.sdb.Prepare(r.thash, r.txN)
 	r.snaps = r.snaps[:0]
+	for _, a := range opAddrs {
+		r.startBal[a] = new(big.Int).Set(r.ref.sdb.GetBalance(a))
+	}
+}
+
+// excluded reports whether applying o would enter a state a known finding excludes; decided by
+// applying it to a copy of the reference state.
+func (r *opsRun) excluded(o Op) bool {
+	if r.ex == nil || !r.ex.any() {
+		return false
+	}
+	switch o.K {
+	case "snapshot", "revert", "finalise", "block", "read", "aladdr", "alslot", "prepal", "log", "addrefund", "subrefund":
+		return false
+	}
+	cp := r.ref.sdb.Copy()
+	applyOp(cp, o)
+	if r.ex.on(exDelBal) {
+		for _, a := range opAddrs {
+			if r.startBal[a].Sign() != 0 && (cp.HasSuicided(a) || (cp.Exist(a) && cp.Empty(a))) {
+				r.ex.hit(exDelBal)
+				return true
+			}
+		}
+	}
+	return false
 }
 
 // allowed reports whether the op is inside the domain (preconditions the EVM itself guarantees),
@@ -116,8 +146,12 @@ func (r *opsRun) allowed(o Op) bool {
 	ref := r.ref.sdb
 	switch o.K {
 	case "subbal":
+		// the EVM only debits an account that exists (the caller of a transfer) and holds the amount
 		v, _ := new(big.Int).SetString(o.V, 10)
-		return v != nil && ref.GetBalance(opAddrs[o.A]).Cmp(v) >= 0
+		return v != nil && ref.Exist(opAddrs[o.A]) && ref.GetBalance(opAddrs[o.A]).Cmp(v) >= 0
+	case "setstate", "setcode":
+		// SSTORE runs in an existing account; code is set on an account just created
+		return ref.Exist(opAddrs[o.A])
 	case "subrefund":
 		return ref.GetRefund() >= o.N
 	case "revert":
@@ -279,7 +313,7 @@ type chooser interface {
 
 func pick(c chooser, xs []string, label string) string { return xs[c.Int(0, len(xs)-1, label)] }
 
-func genAccts(c chooser) []Acct {
+func genAccts(c chooser, ex *exclusions) []Acct {
 	var out []Acct
 	for i, a := range opAddrs {
 		switch c.Int(0, 5, "acctkind") {
@@ -289,6 +323,10 @@ func genAccts(c chooser) []Acct {
 			out = append(out, Acct{Addr: a.Hex(), Kind: "keeper", Bal: pick(c, opAmount, "bal"), Nonce: uint64(c.Int(1, 3, "nonce"))})
 		case 3:
 			if i != 4 {
+				if ex.on(exHollow) {
+					ex.hit(exHollow)
+					continue
+				}
 				out = append(out, Acct{Addr: a.Hex(), Kind: "hollow"})
 			}
 		}
@@ -365,7 +403,7 @@ func genOp(c chooser, r *opsRun) Op {
 			}
 			o.N = uint64(c.Int(0, len(r.snaps)-1, "depth"))
 		}
-		if r.allowed(o) {
+		if r.allowed(o) && !r.excluded(o) {
 			return o
 		}
 	}
@@ -373,8 +411,8 @@ func genOp(c chooser, r *opsRun) Op {
 }
 
 // runOps executes a recorded case (replay) or, when gen != nil, draws the ops on the fly.
-func runOps(c *OpsCase, n int, gen chooser, journal func()) (*violation, *recorder) {
-	r := newOpsRun(c)
+func runOps(c *OpsCase, n int, gen chooser, ex *exclusions, journal func()) (*violation, *recorder) {
+	r := newOpsRun(c, ex)
 	if v := r.compare("initial state", false); v != nil {
 		return v, r.ref.rec
 	}
